@@ -102,6 +102,8 @@ func (vc *VC) smtGround(o *Obligation) string {
 
 var solverSlots = make(chan struct{}, 16)
 
+var smtErrOnce sync.Once
+
 // loadFactor stretches the wall-clock solver budgets when the machine is oversubscribed (other checks
 // running beside this one): a query that needs 2 s of CPU must not turn into "unknown" because it only got
 // a quarter of a core. 1 on an idle machine, at most 6.
@@ -151,6 +153,12 @@ func runSolver(ctx context.Context, sc solverCfg, file string, timeoutS int) (st
 		ln = strings.TrimSpace(ln)
 		if ln == "unsat" || ln == "sat" {
 			st = ln
+			break
+		}
+		if strings.HasPrefix(ln, "(error") && sc.name == solverCfgs[0].name && !strings.Contains(ln, "model is not available") {
+			// the reference solver rejects the query text: a generator defect, never a verdict
+			smtErrOnce.Do(func() { fmt.Fprintf(os.Stderr, "warning: %s rejected %s: %s\n", sc.name, filepath.Base(file), ln) })
+			st = "smt-error"
 			break
 		}
 		if ln == "unknown" || ln == "timeout" || strings.HasPrefix(ln, "(error") {
